@@ -58,8 +58,79 @@ func addrPath(a ssa.Value) (string, bool) {
 		}
 	case *ssa.Alloc:
 		return x.Name() + "." + name, true
+	case *ssa.Extract, *ssa.Call:
+		// the result of a private method of the same receiver that returns a receiver field on every successful
+		// path (`file, err := s.load()` for `s.file`)
+		if p, ok := helperFieldResult(x); ok {
+			return p + "." + name, true
+		}
 	}
 	return "", false
+}
+
+// helperFieldResult: v is the (i-th) result of a call recv.h(...) of a private helper h on the caller's own receiver, and
+// every return of h that yields a nil error returns, at that index, a load of one and the same field path of h's receiver.
+func helperFieldResult(v ssa.Value) (string, bool) {
+	var call *ssa.Call
+	idx := 0
+	switch x := v.(type) {
+	case *ssa.Extract:
+		c, ok := x.Tuple.(*ssa.Call)
+		if !ok {
+			return "", false
+		}
+		call, idx = c, x.Index
+	case *ssa.Call:
+		call = x
+	}
+	if call == nil {
+		return "", false
+	}
+	h := privateHelperOf(&call.Call)
+	if h == nil || h.Signature.Recv() == nil || len(call.Call.Args) == 0 || len(h.Params) == 0 {
+		return "", false
+	}
+	if _, isParam := call.Call.Args[0].(*ssa.Parameter); !isParam {
+		return "", false
+	}
+	res := h.Signature.Results()
+	errLast := res.Len() >= 2 && isErrorType(res.At(res.Len()-1).Type())
+	path := ""
+	for _, ret := range returnsOf(h) {
+		if len(ret.Results) != res.Len() || idx >= res.Len() {
+			return "", false
+		}
+		if errLast && !isNilConst(retVal(ret, res.Len()-1)) {
+			continue
+		}
+		rv := retVal(ret, idx)
+		p, ok := fieldPath(rv)
+		if !ok || rootParam(rv) != h.Params[0] {
+			return "", false
+		}
+		if path != "" && p != path {
+			return "", false
+		}
+		path = p
+	}
+	return path, path != ""
+}
+
+// rootParam: the parameter a load of recv.f1.f2 starts from.
+func rootParam(v ssa.Value) *ssa.Parameter {
+	for d := 0; d < 8; d++ {
+		switch x := v.(type) {
+		case *ssa.UnOp:
+			v = x.X
+		case *ssa.FieldAddr:
+			v = x.X
+		case *ssa.Parameter:
+			return x
+		default:
+			return nil
+		}
+	}
+	return nil
 }
 
 // valName: the register name of a value, qualified by its function (forms may mix values of a function and of its
